@@ -336,7 +336,10 @@ pub fn run_case_inproc(case: &CorruptCase, wroot: &Path, stats: &mut Stats, star
       Mutation::Flip { offset, .. } => offset % 2 == 1,
       Mutation::Truncate { len, .. } => len % 2 == 1,
     };
-    let create_if_missing = class == "MANIFEST.json" && odd;
+    // (an emptied manifest is the case most easily mistaken for "no index yet":
+    // always opened with create_if_missing)
+    let emptied = matches!(&m, Mutation::Truncate { len, .. } if *len == 0);
+    let create_if_missing = class == "MANIFEST.json" && (odd || emptied);
     if create_if_missing {
       stats.inc("probe.opened_with_create_if_missing");
     }
